@@ -47,6 +47,10 @@ def run_contracts(prop, selectors, required, inst, kind, explanation, fns, level
             continue
         k = (o["outcome"] or "?").split(":")[0]
         outcomes[k] = outcomes.get(k, 0) + 1
+        if k == "internal" and outcomes[k] <= 5:
+            # the compilation died with an internal exception (of the compiler - the subject of C18 - or of a wrapper whose signature no
+            # longer fits the wrapped function): the contracts were not evaluated on this program, which is not a verdict
+            rep.undecided_ob(f"{prop}/rtc/{o['prog']}/compiled-under-contract", f"[{' '.join(o['flags'])}] {o['outcome'][:200]}")
         for c, n in (o["evals"] or {}).items():
             if selectors(c):
                 evals[c] = evals.get(c, 0) + n
